@@ -3,6 +3,18 @@
 import json
 
 CLAIMED = {
+    "C15": {
+        "technique": "Lean 4 mutual induction over the control-skeleton model (state restoration for every outcome) + document-level correspondence with end-of-run probe",
+        "text": "Machine-checked proof (Lean 4) over a model of generate_events / process_tags / g / symbol / loop / for / if / var / specs / container, parametric in the expression evaluator and for all fuel: every element, whatever its outcome (success, any error, limit error), leaves every enclosing variable scope, the element stack, the depth counter and the in-specs flag exactly as it found them (Proofs/CtlInv.allInv, a 14-function mutual induction; scopes_restored); a group restores the entire scope stack, so values set inside are discarded when it closes and a failed-then-retried group leaves nothing behind (group_restores_bindings); lookup is innermost-first and element attributes shadow for descendants only (lookup_innermost, element_attrs_shadow); all attributes of one <var> are evaluated in the pre-state (var_parallel_assignment) and only touch the innermost scope (var_touches_innermost_only). The model is tied to the code by comparing output elements and the end-of-run probe (depth, scope-stack height, element-stack height, in-specs; hook verif_probe) on generated nestings with forward references; a lexical-scoping reference interpreter is the oracle.",
+        "note": "Model is hand-written (Svgdx/Ctl/Gen.lean); <reuse> scoping is covered by correspondence only once C18 lands. Known finding (open): an element deferred by a forward reference sees assignments made later in the first pass (KNOWN_FINDINGS.txt). Values containing '$' are re-substituted by the second attribute pass (tested behaviour, `$$select`), so generators keep '$' out of values.",
+        "design_ref": "DESIGN.md §7 C15",
+    },
+    "C17": {
+        "technique": "Lean 4 mutual induction over the control-skeleton model (depth restored for every outcome) + boundary theorems + L-1/L/L+1 document correspondence",
+        "text": "Machine-checked proof (Lean 4), parametric in the evaluator and for all fuel: the depth counter is restored by every element, pass and document fragment for every outcome (depth_restored, depth_restored_node/pass/document from the mutual induction allInv), so any number of siblings start at the same depth — depth measures nesting, not length; an element one level too deep is rejected with the depth error and nothing else happens, one within the limit is dispatched (depth_limit_rejects, depth_within_limit_dispatches); a limit error ends the pass instead of being retried (limit_error_final); a loop wanting one more pass than loop-limit is an error, and a count loop stops exactly at its count (loop_limit_rejects, count_loop_stops); a variable value is rejected iff its byte length exceeds var-limit (var_limit_exact); <config> limits take effect (config_limits_apply). Tied to the code by document correspondence on quantities L-1, L, L+1 for each limit, with flat tails of up to 400 siblings, including the end-of-run depth probe; the two-sided oracle gives replays.",
+        "note": "while/until loops and expression-valued counts join the stream when the expression model is wired into the driver; reuse recursion depth is covered by C18's stream. Four genuine defects were found and fixed (KNOWN_FINDINGS.txt).",
+        "design_ref": "DESIGN.md §7 C17",
+    },
     "C13": {
         "technique": "Lean 4 theorems about the connector model (argmin fold, corner point lists for all 16 direction pairs) over the translated locspec/calc_offset + document-level correspondence",
         "text": "Machine-checked proof (Lean 4), for all rational boxes and points: the location search is an argmin with first-minimum ties — the chosen location(s) are candidates of the connector kind and no candidate (pair) is closer (argminFirst_minimal, closest_minimal, shortest_minimal), and every candidate lies on the box boundary (candidates_on_boundary); the h/v coordinate is the exact middle of the overlap interval (overlapMid_in_overlap); for all 16 pairs of edge directions and every corner-offset, a corner polyline starts and ends at the two endpoints, consists only of axis-parallel segments, leaves and enters along the edge normals (corner_rectilinear), degrades to the straight segment when an end has no edge direction (corner_without_dir), bends at calc_offset (corner_offset_z) and rejects a percent offset for U shapes (corner_u_needs_absolute). connector.rs is hand-modelled (Svgdx/Geom/Connector.lean) and compared attribute-for-attribute with transform_str over all relative placements, endpoint forms and connector kinds.",
